@@ -483,6 +483,8 @@ typedef struct {
     ZSTD_pthread_mutex_t ldmWindowMutex;
     ZSTD_pthread_cond_t ldmWindowCond;  /* Signaled when ldmWindow is updated */
     ZSTD_window_t ldmWindow;  /* A thread-safe copy of ldmState.window */
+    size_t ldmHashTableSize;      /* allocated size of ldmState.hashTable (kept across frames), for ZSTDMT_sizeof_CCtx() */
+    size_t ldmBucketOffsetsSize;  /* allocated size of ldmState.bucketOffsets */
 } serialState_t;
 
 static int
@@ -527,10 +529,12 @@ ZSTDMT_serialState_reset(serialState_t* serialState,
         if (serialState->ldmState.hashTable == NULL || serialState->params.ldmParams.hashLog < hashLog) {
             ZSTD_customFree(serialState->ldmState.hashTable, cMem);
             serialState->ldmState.hashTable = (ldmEntry_t*)ZSTD_customMalloc(hashSize, cMem);
+            serialState->ldmHashTableSize = serialState->ldmState.hashTable ? hashSize : 0;
         }
         if (serialState->ldmState.bucketOffsets == NULL || prevBucketLog < bucketLog) {
             ZSTD_customFree(serialState->ldmState.bucketOffsets, cMem);
             serialState->ldmState.bucketOffsets = (BYTE*)ZSTD_customMalloc(numBuckets, cMem);
+            serialState->ldmBucketOffsetsSize = serialState->ldmState.bucketOffsets ? numBuckets : 0;
         }
         if (!serialState->ldmState.hashTable || !serialState->ldmState.bucketOffsets)
             return 1;
@@ -1090,6 +1094,7 @@ size_t ZSTDMT_sizeof_CCtx(ZSTDMT_CCtx* mtctx)
             + ZSTDMT_sizeof_CCtxPool(mtctx->cctxPool)
             + ZSTDMT_sizeof_seqPool(mtctx->seqPool)
             + ZSTD_sizeof_CDict(mtctx->cdictLocal)
+            + mtctx->serial.ldmHashTableSize + mtctx->serial.ldmBucketOffsetsSize
             + mtctx->roundBuff.capacity;
 }
 
